@@ -40,6 +40,7 @@ type VElem struct {
 	arr  *Term
 	idx  *Term
 	typ  types.Type
+	tbl  string // set for elements of a constant package-level table: name of the table
 }
 
 // VCell: address of a register-like local.
@@ -91,6 +92,13 @@ func typeKey(t types.Type) string {
 	case *types.Array:
 		return fmt.Sprintf("[%d]%s", tt.Len(), typeKey(tt.Elem()))
 	case *types.Basic:
+		// byte and rune are aliases with their own *types.Basic objects: use one name per kind
+		switch tt.Kind() {
+		case types.Uint8:
+			return "uint8"
+		case types.Int32:
+			return "int32"
+		}
 		return tt.Name()
 	}
 	s := t.String()
